@@ -109,11 +109,18 @@ def exec_ast(it, ast, ctx_cell):
 
 
 def execute(it, s, ctx_cell):
-    """parse_expression(s)?.exec(&mut ctx) on a named context (same as the public execute())"""
-    p = parse(it, s)
-    if p.kind != 'ok':
-        return p
-    return exec_ast(it, p.value, ctx_cell)
+    """the public execute(text, ctx), called through its own MIR body (the Context is an Arc handle: passing its value
+    shares the map, so the caller's cell still sees the bindings afterwards)"""
+    if not isinstance(s, Str):
+        s = mkstr(s)
+    try:
+        it.resolve('execute')
+    except Exception:
+        p = parse(it, s)
+        if p.kind != 'ok':
+            return p
+        return exec_ast(it, p.value, ctx_cell)
+    return as_result(guarded(it, it.call, 'execute', [s, ctx_cell.v]))
 
 
 def V_num(m, s=0):
